@@ -623,6 +623,8 @@ class Fn(object):
     def reachable_states(self, start=None, cut_edges=(), cut_blocks=(), with_catch=True):
         cut2, cut3, cut4 = set(), set(), set()
         for e in cut_edges:
+            if len(e) == 5:
+                continue    # return pseudo gate, see gate_edges()
             (cut2 if len(e) == 2 else cut3 if len(e) == 3 else cut4).add(e)
         cutb = set(cut_blocks)
         if start is None:
@@ -678,6 +680,18 @@ class Fn(object):
                         if pred(atom, pol):
                             out.append((B.id, s, lab, tag))
                             break
+        # `return <expr>;` is a branch in disguise: the caller sees true only if <expr> was true.  A return whose
+        # value implies the fact is recorded as a pseudo gate ('ret', node, ...) honoured by only_through().
+        for r in self.returns():
+            v = self.ret_value(r)
+            if v is None or self.const_value(v) is not None:
+                continue
+            try:
+                facts = self.cond_facts(v, True)
+            except Exception:
+                facts = []
+            if any(pred(atom, pol) for (atom, pol) in facts):
+                out.append(('ret', r, None, None, None))
         return out
 
     def only_through(self, target_node, gates):
@@ -685,7 +699,10 @@ class Fn(object):
         p = self.point_of(target_node)
         if p is None:
             raise AnalysisBroken('node %d of %s has no CFG position' % (target_node, self.id))
-        reach = self.reachable_blocks(cut_edges=list(gates))
+        gates = list(gates)
+        if any(len(g) == 5 and g[0] == 'ret' and g[1] == target_node for g in gates):
+            return True
+        reach = self.reachable_blocks(cut_edges=gates)
         return p[0] not in reach
 
     def abnormal_blocks(self):
